@@ -845,13 +845,12 @@ impl<R: Read> RdbReader<R> {
             .unwrap()
             .as_millis() as u64;
         
-        let ttl = if expiry_ms > now_ms {
-            Some(Duration::from_millis(expiry_ms - now_ms))
-        } else {
-            None // Already expired
-        };
+        // The record carries a deadline, so it is never loaded without one (None would mean
+        // "no TTL": a key that expired while the server was down would come back for good).
+        // A deadline in the past is loaded as already expired and is removed by expiry.
+        let ttl = Duration::from_millis(expiry_ms.saturating_sub(now_ms));
         
-        self.read_key_value_with_type(storage, db, value_type, ttl)
+        self.read_key_value_with_type(storage, db, value_type, Some(ttl))
     }
     
     /// Read key-value with known type
@@ -929,7 +928,7 @@ impl<R: Read> RdbReader<R> {
                             if let Some(stream_id) = crate::storage::stream::StreamId::from_string(
                                 std::str::from_utf8(&id_str).unwrap_or("")
                             ) {
-                                let _ = storage.xadd_with_id(db, key.clone(), stream_id, fields);
+                                storage.xadd_with_id(db, key.clone(), stream_id, fields)?;
                             }
                         }
                         
